@@ -7,7 +7,7 @@
    majority clauses are stated below in full and decided per case by a brute-force checker over
    all candidate subsets (evidence: partial). *)
 From Coq Require Import ZArith QArith List.
-From VL Require Import Prelude.PyDict Model.GetNBest Model.Convert Model.STV Model.Quota Proofs.STV_proofs Proofs.STV_majority_proofs.
+From VL Require Import Prelude.PyDict Model.GetNBest Model.Convert Model.STV Model.Quota Proofs.STV_proofs Proofs.STV_majority_proofs Proofs.STV_psc_proofs.
 Import ListNotations.
 
 Theorem C04_exact_count : forall cf fuel a n total seats caps acc,
@@ -46,15 +46,108 @@ Theorem C04_majority : forall cf a total c t zt caps c2 f,
   t_seats (run cf (S f) a 1 total [] caps []) = [(c, 1%Z)] /\ t_stop (run cf (S f) a 1 total [] caps []) = None.
 Proof. intros cf a total c t zt caps c2 f. exact (majority_single_seat cf a total c t zt caps c2 f). Qed.
 
-(* full statement of the solid-coalition clause (ballots without shared ranks) *)
-Definition solid_b (S : list C) (b : ballot) : bool :=
-  let top := firstn (length S) b in
-  Nat.eqb (length top) (length S) &&
-  forallb (fun it => match it with IP c => cmem c S | IS _ => false end) top &&
-  forallb (fun c => existsb (fun it => match it with IP c' => ceqb c c' | IS _ => false end) top) S.
-Definition coalition_weight (S : list C) (votes : list (ballot * Q)) : Q :=
-  fold_right (fun bw acc => Qplus (if solid_b S (fst bw) then snd bw else 0%Q) acc) 0%Q votes.
+(* ---------------------------------------------------------------- proportionality for solid coalitions
+   [solid_b S b] (Proofs/STV_psc_proofs.v): the first |S| ranks of b are plain (unshared) ranks naming exactly the
+   members of S; [coalition_weight S votes] is the weight of the solid ballots.  Nothing is assumed about the other
+   ballots (shared ranks, truncation, repeated names) nor about what follows the top |S| ranks of a solid ballot.
+
+   Selector form: every candidate capped at one seat, no previous seats, accept_quota_equal, one elimination at a
+   time (eliminate_step = -1); mandatory_quota free.  Hypotheses on the data: weights non-negative; the quota
+   actually used, q = quota total n, is positive and (n+1) q exceeds the votes (true of Droop for n >= 0 and of Hare
+   for n >= 1, total > 0: corollaries below).  Then every count that ends normally seats min(k, |S|) members of a
+   coalition holding k quotas. *)
 Definition C04_psc_full_statement : Prop :=
+  forall (quota : Q -> Z -> Q) (mq : bool) (votes : list (ballot * Q)) (n : Z) (caps : list (C * Z)) (S : list C) (k : nat),
+    (forall c, In c (all_ranked_candidates votes) -> dget caps c = Some 1%Z) ->
+    NoDup S -> S <> [] ->
+    (forall b w, In (b, w) votes -> (0 <= w)%Q) ->
+    let total := Qred (fold_left Qplus (map snd votes) 0%Q) in
+    (0 < quota total n)%Q -> (total < inject_Z (n + 1) * quota total n)%Q ->
+    let t := stv (Build_cfg (Some quota) true mq (-1)) votes n [] caps in
+    t_stop t = None ->
+    (inject_Z (Z.of_nat k) * quota total n <= coalition_weight S votes)%Q ->
+    (Nat.min k (length S) <= length (filter (fun c => cmem c S) (map fst (t_seats t))))%nat.
+
+Theorem C04_psc : C04_psc_full_statement.
+Proof.
+  intros quota mq votes n caps S k Hcaps Hnd Hne Hw total Hq Hd t Hstop Hk.
+  exact (psc_main (Build_cfg (Some quota) true mq (-1)) quota votes n caps S k eq_refl eq_refl eq_refl Hcaps Hnd Hne Hw Hq Hd Hstop Hk).
+Qed.
+
+(* the same, declaratively: there is a set W of distinct members of S, each holding exactly one seat, of size
+   min(k, |S|) at least *)
+Theorem C04_psc_winners : forall (quota : Q -> Z -> Q) (mq : bool) (votes : list (ballot * Q)) (n : Z) (caps : list (C * Z)) (S : list C) (k : nat),
+    (forall c, In c (all_ranked_candidates votes) -> dget caps c = Some 1%Z) ->
+    NoDup S -> S <> [] ->
+    (forall b w, In (b, w) votes -> (0 <= w)%Q) ->
+    let total := Qred (fold_left Qplus (map snd votes) 0%Q) in
+    (0 < quota total n)%Q -> (total < inject_Z (n + 1) * quota total n)%Q ->
+    let t := stv (Build_cfg (Some quota) true mq (-1)) votes n [] caps in
+    t_stop t = None ->
+    (inject_Z (Z.of_nat k) * quota total n <= coalition_weight S votes)%Q ->
+    exists W : list C, NoDup W /\ incl W S /\ (forall c, In c W -> In (c, 1%Z) (t_seats t)) /\
+                       (Nat.min k (length S) <= length W)%nat.
+Proof.
+  intros quota mq votes n caps S k Hcaps Hnd Hne Hw total Hq Hd t Hstop Hk.
+  exact (psc_winners (Build_cfg (Some quota) true mq (-1)) quota votes n caps S k eq_refl eq_refl eq_refl Hcaps Hnd Hne Hw Hq Hd Hstop Hk).
+Qed.
+
+(* Droop quota: no hypothesis on the quota is left *)
+Theorem C04_psc_droop : forall (mq : bool) (votes : list (ballot * Q)) (n : Z) (caps : list (C * Z)) (S : list C) (k : nat),
+    (forall c, In c (all_ranked_candidates votes) -> dget caps c = Some 1%Z) ->
+    NoDup S -> S <> [] -> (0 <= n)%Z ->
+    (forall b w, In (b, w) votes -> (0 <= w)%Q) ->
+    let total := Qred (fold_left Qplus (map snd votes) 0%Q) in
+    let t := stv (Build_cfg (Some Quota.droop) true mq (-1)) votes n [] caps in
+    t_stop t = None ->
+    (inject_Z (Z.of_nat k) * Quota.droop total n <= coalition_weight S votes)%Q ->
+    (Nat.min k (length S) <= length (filter (fun c => cmem c S) (map fst (t_seats t))))%nat.
+Proof.
+  intros mq votes n caps S k Hcaps Hnd Hne Hn Hw total t Hstop Hk.
+  assert (Ht : (0 <= total)%Q).
+  { unfold total. rewrite total_vsum. clear -Hw. induction votes as [|[b w] vs IH]; simpl; [apply Qle_refl|].
+    apply (Qle_trans _ (0 + 0)); [apply Qle_refl|]. apply Qplus_le_compat; [apply (Hw b w); left; reflexivity|].
+    apply IH. intros b0 w0 H. apply (Hw b0 w0). right. exact H. }
+  destruct (droop_ok total n Ht Hn) as [Hq Hd].
+  exact (C04_psc Quota.droop mq votes n caps S k Hcaps Hnd Hne Hw Hq Hd Hstop Hk).
+Qed.
+
+(* Hare quota (at least one seat, some vote cast) *)
+Theorem C04_psc_hare : forall (mq : bool) (votes : list (ballot * Q)) (n : Z) (caps : list (C * Z)) (S : list C) (k : nat),
+    (forall c, In c (all_ranked_candidates votes) -> dget caps c = Some 1%Z) ->
+    NoDup S -> S <> [] -> (1 <= n)%Z ->
+    (forall b w, In (b, w) votes -> (0 <= w)%Q) ->
+    let total := Qred (fold_left Qplus (map snd votes) 0%Q) in
+    (0 < total)%Q ->
+    let t := stv (Build_cfg (Some Quota.hare) true mq (-1)) votes n [] caps in
+    t_stop t = None ->
+    (inject_Z (Z.of_nat k) * Quota.hare total n <= coalition_weight S votes)%Q ->
+    (Nat.min k (length S) <= length (filter (fun c => cmem c S) (map fst (t_seats t))))%nat.
+Proof.
+  intros mq votes n caps S k Hcaps Hnd Hne Hn Hw total Ht t Hstop Hk.
+  destruct (hare_ok total n Ht Hn) as [Hq Hd].
+  exact (C04_psc Quota.hare mq votes n caps S k Hcaps Hnd Hne Hw Hq Hd Hstop Hk).
+Qed.
+
+(* the hypotheses are satisfiable by a non-trivial count: 4 candidates, 3 seats, Droop quota 6 of 23 votes; the
+   coalition {1,2} holds 13 votes = 2 quotas on ballots ranking 1,2 (in either order) first; four counts: 1 elected,
+   2 elected after the transfer of 1's surplus, 4 eliminated, 3 elected as the last standing *)
+Definition ex_votes : list (ballot * Q) :=
+  [([IP 1; IP 2; IP 3], 9%Q); ([IP 2; IP 1], 4%Q); ([IP 3; IP 4], 3%Q); ([IP 4; IS [1; 3]], 3%Q); ([IP 3], 2%Q); ([IP 4; IP 3], 2%Q)]%positive.
+Definition ex_caps : list (C * Z) := [(1%positive, 1%Z); (2%positive, 1%Z); (3%positive, 1%Z); (4%positive, 1%Z)].
+Example C04_psc_example :
+  let total := Qred (fold_left Qplus (map snd ex_votes) 0%Q) in
+  let t := stv (Build_cfg (Some Quota.droop) true false (-1)) ex_votes 3 [] ex_caps in
+  forallb (fun c => match dget ex_caps c with Some 1%Z => true | _ => false end) (all_ranked_candidates ex_votes) = true /\
+  forallb (fun bw => Qle_bool 0 (snd bw)) ex_votes = true /\
+  Quota.droop total 3 = 6%Q /\ coalition_weight [1; 2]%positive ex_votes = 13%Q /\
+  t_stop t = None /\ length (t_counts t) = 4%nat /\ t_seats t = [(1%positive, 1%Z); (2%positive, 1%Z); (3%positive, 1%Z)].
+Proof. vm_compute. repeat split; try reflexivity. Qed.
+
+(* why the quota hypothesis is there: the clause read for ANY quota function fails for quotas below Droop's, already
+   for the library's Imperiali quota v/(n+2): one seat, 5 votes for 1 and 4 for 2, quota 3; both reach it, the larger
+   surplus takes the seat, and the coalition {2} holding one quota is left without *)
+Definition C04_psc_unrestricted_statement : Prop :=
   forall (quota : Q -> Z -> Q) (votes : list (ballot * Q)) (n : Z) (caps : list (C * Z)) (S : list C) (k : nat),
     (forall c, In c (all_ranked_candidates votes) -> dget caps c = Some 1%Z) ->
     NoDup S -> S <> [] ->
@@ -63,8 +156,27 @@ Definition C04_psc_full_statement : Prop :=
     t_stop t = None ->
     (inject_Z (Z.of_nat k) * quota total n <= coalition_weight S votes)%Q ->
     (Nat.min k (length S) <= length (filter (fun c => cmem c S) (map fst (t_seats t))))%nat.
+Theorem C04_psc_unrestricted_refuted : ~ C04_psc_unrestricted_statement.
+Proof.
+  intros H.
+  specialize (H Quota.imperiali [([IP 1%positive], 5%Q); ([IP 2%positive], 4%Q)] 1%Z
+                [(1%positive, 1%Z); (2%positive, 1%Z)] [2%positive] 1%nat).
+  cbv zeta in H. revert H. vm_compute. intros H.
+  refine (_ (H _ _ _ eq_refl _)).
+  - intros Hle. inversion Hle.
+  - intros c [<-|[<-|[]]]; reflexivity.
+  - constructor; [intros []|constructor].
+  - discriminate.
+  - discriminate.
+Qed.
 
 Print Assumptions C04_exact_count.
 Print Assumptions C04_last_standing.
 Print Assumptions C04_single_seat_quota_winner.
 Print Assumptions C04_majority.
+Print Assumptions C04_psc.
+Print Assumptions C04_psc_winners.
+Print Assumptions C04_psc_droop.
+Print Assumptions C04_psc_hare.
+Print Assumptions C04_psc_example.
+Print Assumptions C04_psc_unrestricted_refuted.
